@@ -774,6 +774,17 @@ func init() {
 			if conc {
 				return ex.callBody(fn, a, nil)
 			}
+			digits := len(bs) > 0 && len(bs) <= 18 && ex.spec == 0
+			for _, b := range bs {
+				if r := ex.rangeOf(b); !(r.uOK && r.ulo >= '0' && r.uhi <= '9') {
+					digits = false
+				}
+			}
+			if digits {
+				// decimal digits only (by the path condition): the real code, whose first step
+				// (strconv.ParseInt, interpreted from its source) succeeds on such tokens
+				return ex.callBody(fn, a, nil)
+			}
 			ex.w.note("stub: parseNumber on symbolic token bytes modelled as an uninterpreted function")
 			isNum := ex.st.Var("parseNumber.isnum"+key, SBool)
 			val := ex.st.Var("parseNumber.value"+key, SBV(64))
